@@ -1277,7 +1277,9 @@ class DigitalWaveform(Generic[TDigitalState]):
     def _check_writeable_before_growing(self) -> None:
         # NumPy lets a read-only array that owns its data be resized. Fail before the buffer grows,
         # so that a rejected append or load leaves the capacity (and the caller's array) alone.
-        if not self._data.flags.writeable:
+        # (_data may be a 2-D view of a 1-D array made read-only after the view was taken.)
+        base = self._data if self._data_1d is None else self._data_1d
+        if not (self._data.flags.writeable and base.flags.writeable):
             raise ValueError("assignment destination is read-only")
 
     def load_data(
